@@ -26,6 +26,12 @@ for q, fi in sorted(repo.functions.items()):
 from verif.engine.walker import exc_ancestors
 hier = {q: sorted(exc_ancestors(repo, q)) for q, ci in sorted(repo.classes.items()) if "Exception" in exc_ancestors(repo, q) or "BaseException" in exc_ancestors(repo, q)}
 json.dump({"raises": rc, "ancestors": hier}, open(os.path.join(ref, "raise_classes.json"), "w"), indent=0, sort_keys=True)
+from verif.rules.common import is_gate, rejection_sites
+rej = {}
+for q, fi in sorted(repo.functions.items()):
+    if is_gate(fi):
+        rej[q] = rejection_sites(ck, q)
+json.dump(rej, open(os.path.join(ref, "rejections.json"), "w"), indent=0, sort_keys=True)
 from verif.selftest.runner import tree_digest
 open(os.path.join(ref, "tree.sha256"), "w").write(tree_digest(repo.root) + "  skepticoin/**/*.py of the tree the corpora were confirmed on\n")
 print(len(table), "checkpoints; genesis", len(data), "bytes;", len(repo.functions), "functions")
